@@ -1022,9 +1022,13 @@ ASSUMPTIONS = [
     "connected_components is modelled by input/output behaviour (absorbing fold instead of the breadth-first walk)",
 ]
 LEVEL_TEXT = (
-    "Partial. Lean theorems (Props/C13.lean) about the executable model of type inference (match_type over the live explicit-type table), "
-    "attribute occurrence merging (add_attribute, reduce_attributes, merge_attributes) and connected components; the full-strength statements that the code "
-    "violates are stated, refuted by witnesses and proved under explicit decidable hypotheses. Tied to /repo by correspondence of every core and by the end-to-end "
-    "oracle on samples of hidden regular models."
+    "Partial. Lean theorems (Props/C13.lean) about the executable model of the cores: for any XML / JSON documents the classes obtained by "
+    "ElementMapper/DictMapper.map + reduce_classes exist and admit every mapped occurrence (each attr present with bounds containing the "
+    "occurrence's, missing attrs optional; merged_bounds_sound states it in child counts); match_type picks the first live explicit type "
+    "whose strict test accepts, and int/bool values so inferred are read and written back unchanged by the binding model; connected_components is the "
+    "partition into maximal overlapping groups, independent of order. Two full-strength statements the code violates (union members read in fixed "
+    "order, interleaving marker taken from the first occurrence) are refuted by witnesses and proved under decidable hypotheses. Tied to /repo by "
+    "correspondence of every core and by the end-to-end oracle (whole pipeline, strict parse, re-serialisation) on samples of hidden regular models; "
+    "seven defects listed as known findings."
 )
 LEVEL_NOTE = "Trusted: Lean kernel, sampling correspondence, lxml, stand-in renderer; float/Decimal lexical tests abstract."
